@@ -219,6 +219,10 @@ V("C07", "band-explicit-loop", "silent", "", "the band as an explicit loop with 
   (CA, '        # Calling pvalues is easier then repeating the CLs calculation here\n        tb, _ = get_backend()\n        return list(\n            map(\n                list,\n                zip(\n                    *(\n                        self.pvalues(\n                            test_stat, sig_plus_bkg_distribution, bkg_only_distribution\n                        )\n                        for test_stat in [\n                            bkg_only_distribution.expected_value(n_sigma)\n                            for n_sigma in [2, 1, 0, -1, -2]\n                        ]\n                    )\n                ),\n            )\n        )\n', '        tb, _ = get_backend()\n        CLsb_exp, CLb_exp, CLs_exp = [], [], []\n        for n_sigma in [2, 1, 0, -1, -2]:\n            test_stat = bkg_only_distribution.expected_value(n_sigma)\n            CLsb = sig_plus_bkg_distribution.pvalue(test_stat)\n            CLb = bkg_only_distribution.pvalue(test_stat)\n            CLsb_exp.append(CLsb)\n            CLb_exp.append(CLb)\n            CLs_exp.append(tb.astensor(CLsb / CLb))\n        return [CLsb_exp, CLb_exp, CLs_exp]\n'))
 V("C07", "branch-by-muhat", "fire", "C07.R1", "qtilde branch chosen by the sign of the fitted POI instead of q vs qA",
   (CA, "(sqrtqmu_v <= self.sqrtqmuA_v), _true_case, _false_case", "(muhatbhat[self.pdf.config.poi_index] > 0), _true_case, _false_case"))
+V("C04", "numpy-cdf-erfc-int-reciprocal", "fire", "C04.R8", "numpy normal_cdf ported to the erfc form with np.reciprocal(sigma): integer sigma truncates to 0",
+  ("src/pyhf/tensor/numpy_backend.py", "        return norm.cdf(x, loc=mu, scale=sigma)  # type: ignore[no-any-return]", "        z = np.subtract(x, mu) * np.reciprocal(sigma)\n        return 0.5 * special.erfc(-z / np.sqrt(2))  # type: ignore[no-any-return]"))
+V("C04", "numpy-cdf-erfc-true-division", "silent", "", "numpy normal_cdf in the erfc form with a true division",
+  ("src/pyhf/tensor/numpy_backend.py", "        return norm.cdf(x, loc=mu, scale=sigma)  # type: ignore[no-any-return]", "        z = np.subtract(x, mu) / sigma\n        return 0.5 * special.erfc(-z / np.sqrt(2))  # type: ignore[no-any-return]"))
 
 # ------------------------------------------------------------------ C08
 INF = "src/pyhf/infer/__init__.py"
